@@ -66,6 +66,8 @@ type jRun struct {
 	IDs      []uint16 `json:"ids"`
 	Signers  []uint16 `json:"signers,omitempty"`
 	Expect   string   `json:"expect,omitempty"` // sign | refuse
+	Reinit   string   `json:"reinit,omitempty"` // the party objects served another committee before this run: how
+	PrevIDs  []uint16 `json:"prev_ids,omitempty"`
 	Ok       bool     `json:"ok"`
 	ErrClass string   `json:"err_class"` // "" | timeout | digest_mismatch | other
 	ErrText  string   `json:"err_text,omitempty"`
@@ -83,24 +85,26 @@ type jRun struct {
 }
 
 type jOn struct {
-	Kind      string   `json:"kind"` // "onmsg"
-	Scheme    string   `json:"scheme"`
-	Phase     string   `json:"phase"` // keygen | signing: message captured in that phase; locate: session/sender grid for the slot lookup
-	URL       string   `json:"url"`
-	IDs       []uint16 `json:"ids"` // the receiver's session, sorted by key (= tss-lib's slot order)
-	Self      uint16   `json:"self"`
-	RealFrom  uint16   `json:"real_from"`
-	From      uint16   `json:"from"` // transport sender handed to OnMsg
-	Member    bool     `json:"member"`
-	BcastIn   bool     `json:"bcast_in"`
-	Parsed    bool     `json:"parsed"` // tss.ParseWireMessage accepts the bytes (independently of the adapter)
-	Panic     bool     `json:"panic"`
-	Enq       int      `json:"enq"`
-	AttrKey   string   `json:"attr_key"` // decimal; sender the queued message is attributed to
-	AttrIdx   int      `json:"attr_idx"`
-	AttrType  string   `json:"attr_type"`
-	AttrBcast bool     `json:"attr_bcast"`
-	Hex       string   `json:"hex,omitempty"`
+	Kind      string     `json:"kind"` // "onmsg"
+	Scheme    string     `json:"scheme"`
+	Phase     string     `json:"phase"` // keygen | signing: message captured in that phase; locate: session/sender grid for the slot lookup
+	URL       string     `json:"url"`
+	IDs       []uint16   `json:"ids"` // the receiver's session, sorted by key (= tss-lib's slot order)
+	Self      uint16     `json:"self"`
+	Prev      [][]uint16 `json:"prev,omitempty"`   // re-initialised party: the committees of its earlier Init calls, oldest first
+	Primed    []uint16   `json:"primed,omitempty"` // ... and the senders it had received a message from before the last Init
+	RealFrom  uint16     `json:"real_from"`
+	From      uint16     `json:"from"` // transport sender handed to OnMsg
+	Member    bool       `json:"member"`
+	BcastIn   bool       `json:"bcast_in"`
+	Parsed    bool       `json:"parsed"` // tss.ParseWireMessage accepts the bytes (independently of the adapter)
+	Panic     bool       `json:"panic"`
+	Enq       int        `json:"enq"`
+	AttrKey   string     `json:"attr_key"` // decimal; sender the queued message is attributed to
+	AttrIdx   int        `json:"attr_idx"`
+	AttrType  string     `json:"attr_type"`
+	AttrBcast bool       `json:"attr_bcast"`
+	Hex       string     `json:"hex,omitempty"`
 }
 
 type jMal struct {
@@ -255,6 +259,8 @@ type netw struct {
 	ids     []uint16
 	parties map[uint16]adapterParty
 	rec     *recorder
+	reuse   map[uint16]adapterParty         // party objects that already served an earlier session (re-initialised, not re-created)
+	prime   func(id uint16, p adapterParty) // applied to freshly created objects before Init
 }
 
 func (nw *netw) sender(src uint16) func([]byte, bool, uint16) {
@@ -298,7 +304,14 @@ func (nw *netw) sender(src uint16) func([]byte, bool, uint16) {
 func (nw *netw) build() {
 	nw.parties = map[uint16]adapterParty{}
 	for _, id := range nw.ids {
+		if p, ok := nw.reuse[id]; ok {
+			nw.parties[id] = p
+			continue
+		}
 		nw.parties[id] = nw.sc.newParty(id)
+		if nw.prime != nil {
+			nw.prime(id, nw.parties[id])
+		}
 	}
 	for _, id := range nw.ids {
 		nw.parties[id].Init(nw.ids, nw.t, nw.sender(id))
@@ -306,7 +319,7 @@ func (nw *netw) build() {
 }
 
 // keygenLive: the adapter's real KeyGen on every party.
-func keygenLive(sc *scheme, rec *recorder, run int, ids []uint16, t int, timeout time.Duration) (map[uint16][]byte, jRun) {
+func keygenLive(sc *scheme, rec *recorder, run int, ids []uint16, t int, timeout time.Duration) (map[uint16][]byte, jRun, map[uint16]adapterParty) {
 	nw := &netw{sc: sc, phase: "keygen", run: run, t: t, ids: ids, rec: rec}
 	nw.build()
 	res := jRun{Kind: "keygen", Scheme: sc.name, Via: "adapter", Run: run, N: len(ids), T: t, IDs: ids}
@@ -340,12 +353,20 @@ func keygenLive(sc *scheme, rec *recorder, run int, ids []uint16, t int, timeout
 	if firstErr != nil {
 		res.ErrText = firstErr.Error()
 	}
-	return shares, res
+	return shares, res, nw.parties
 }
 
 // signLive: the adapter's real Sign on every signer.
-func signLive(sc *scheme, rec *recorder, run int, ids, signers []uint16, t int, shares map[uint16][]byte, digest []byte, timeout time.Duration) jRun {
+type signOpts struct {
+	reuse map[uint16]adapterParty
+	prime func(id uint16, p adapterParty)
+}
+
+func signLive(sc *scheme, rec *recorder, run int, ids, signers []uint16, t int, shares map[uint16][]byte, digest []byte, timeout time.Duration, opts ...signOpts) jRun {
 	nw := &netw{sc: sc, phase: "signing", run: run, t: t, ids: signers, rec: rec}
+	if len(opts) > 0 {
+		nw.reuse, nw.prime = opts[0].reuse, opts[0].prime
+	}
 	nw.build()
 	res := jRun{Kind: "sign", Scheme: sc.name, Via: "adapter", Run: run, N: len(ids), T: t, IDs: ids, Signers: signers,
 		Digest: hex.EncodeToString(digest), DigestLen: len(digest)}
